@@ -10,7 +10,7 @@ from ..values import Num, Const, Tup, Term, Obj, P, Val, Gam, veq, walk_vals, ar
 from ..model import AnalysisError, FuncInfo
 from ..symeval import Evaluator
 from ..weaver_model import WeaverModel, WEAVER, SERIES_FIELDS
-from .common import show, REPO_RESULT_KIND, S, SAU, run as runf
+from .common import show, REPO_RESULT_KIND, S, SAU, run as runf, inline_except, SCANS
 from .c08 import model
 from .c09 import callee_raises, callee_eval, variants
 from ..rfa_model import strategy
@@ -25,6 +25,11 @@ def guard_mentions(guard, test) -> bool:
             if test(t):
                 return True
     return False
+
+
+def _c01_opaque():
+    from .c01 import opaque
+    return opaque
 
 
 def dispatch_fallthrough(ctx, qualname: str, param: str, what: str, known):
@@ -83,7 +88,7 @@ def check_guards(ctx, wm: WeaverModel):
     # 2 non (N,2) array
     fi = ctx.prog.func(WEAVER + '.from_2d_array')
     xy = Term('param', (Const('xy'),), kind='unknown')
-    ev = Evaluator(ctx.prog, inline=lambda f: False, opaque_kind=REPO_RESULT_KIND)
+    ev = Evaluator(ctx.prog, inline=lambda f: not f.qualname.startswith(WEAVER), opaque_kind=REPO_RESULT_KIND)
     ev.run_function(fi, args={'xy': xy})
     rs = [e for e in ev.events if e.kind == 'raise']
     news = [e for e in ev.events if e.kind in ('new', 'call')]
@@ -120,7 +125,7 @@ def check_guards(ctx, wm: WeaverModel):
         args = {'x': arr_param('x', length=Lx), 'y': arr_param('y', length=Lx), 'x_ref': arr_param('x_ref'), 'y_ref': arr_param('y_ref'),
                 's': Const(None)}
         args.update(extra)
-        ev = Evaluator(ctx.prog, inline=lambda f: False, opaque_kind=REPO_RESULT_KIND)
+        ev = Evaluator(ctx.prog, inline=_c01_opaque(), opaque_kind=REPO_RESULT_KIND)
         ev.run_function(pfi, args=args)
         rs = [e for e in ev.events if e.kind == 'raise' and e.data.get('exc') == 'ValueError']
         cnt = [e for e in rs if any(isinstance(g, P) and g.op == '<' and any(isinstance(a, Num) and a.r == Lx for a in g.args) for g in e.guard)]
@@ -138,7 +143,7 @@ def check_guards(ctx, wm: WeaverModel):
         L = sym.sym('L')
         x = arr_param('x', length=L)
         xl, xr = S('x_left'), S('x_right')
-        ev = Evaluator(ctx.prog, inline=lambda f: False, opaque_kind=REPO_RESULT_KIND)
+        ev = Evaluator(ctx.prog, inline=inline_except(*SCANS), opaque_kind=REPO_RESULT_KIND)
         ev.run_function(tfi, args={'x': x, 'y': arr_param('y', length=L), 'x_left': xl, 'x_right': xr, 'x_left_as_ratio': Const(lr),
                                    'x_right_as_ratio': Const(rr)})
         span = x.at(L - C(1)).r - x.at(C(0)).r
